@@ -23,7 +23,9 @@ var _ ot.OT = &OT{}
 func New() *OT { return &OT{} }
 
 // InitSender implements ot.OT.
-func (o *OT) InitSender(io ot.IO) error { o.io = io; return nil }
+// InitSender implements ot.OT. Like every real OT of the library it flushes
+// the connection (the garbler relies on that to push the circuit out).
+func (o *OT) InitSender(io ot.IO) error { o.io = io; return io.Flush() }
 
 // InitReceiver implements ot.OT.
 func (o *OT) InitReceiver(io ot.IO) error { o.io = io; return nil }
